@@ -44,7 +44,7 @@ class Tdmd(ApiImmut):
             return
         okm, why = tt_consistent(modes) if _is_tt(modes) else (False, 'not a TT')
         c.check(self.api, 'modes_are_a_consistent_tt', okm, ['why=' + why.split(' (')[0][:40]] if not okm else [], {'why': why}, prop=P)
-        if not (tt_consistent(x)[0] and tt_consistent(y)[0]) or int(np.prod(x.row_dims)) > 2 ** 14:
+        if not (tt_consistent(x)[0] and tt_consistent(y)[0]) or int(np.prod(x.row_dims)) > 2 ** 16:
             return
         if not (v['ortho_l'] is True and v['ortho_r'] is True):
             # switching the sweeps off is only meaningful on input that already is in that gauge (measured)
@@ -89,9 +89,10 @@ class Tdmd(ApiImmut):
         nz = np.abs(lam_a) > 1e-8 * sc
         scale_m = max(float(np.max(np.abs(Phi))), 1e-300)
         if self.name == 'tdmd_exact':
-            A = Y @ np.linalg.pinv(X, rcond=(thr if thr else 1e-12))
-            R = A @ Phi - Phi @ np.diag(lam_a)
-            err = float(np.max(np.abs(R[:, nz]))) / (scale_m * max(float(np.linalg.norm(A, 2)), 1e-300)) if np.any(nz) else 0.0
+            # A = Y pinv(X) = (Y V S^-1) U^H is applied in factored form (N x N is never formed: tall grids); ||A||_2 = ||Y V S^-1||_2
+            Af = Y @ Vh.conj().T @ np.diag(1.0 / s)
+            R = Af @ (U.conj().T @ Phi) - Phi @ np.diag(lam_a)
+            err = float(np.max(np.abs(R[:, nz]))) / (scale_m * max(float(np.linalg.norm(Af, 2)), 1e-300)) if np.any(nz) else 0.0
             c.check(self.api, 'exact_modes_are_eigenvectors_of_Y_pinvX', err <= 1e-7 * max(1.0, condW) * max(1.0, cond * 1e-2), tags, {'rel_residual': err, 'cond': cond, 'condW': condW}, prop=P)
         else:
             inr = float(np.max(np.abs(U @ (U.conj().T @ Phi) - Phi))) / scale_m
